@@ -399,6 +399,46 @@ def gen(rng, tier):
         b = Builder(rng)
         gen_union(rng, b, [4, 5, 6, 7] if quick or rep % 3 else [4, 6, 7, 8])
         add('union', b)
+    # (c') deterministic union cases: EMPTY inputs of smaller and larger lg_k at every position (they must not lower the union's lg_k),
+    #      lvalue and rvalue updates; union copy-construct / copy-assign / move-construct / move-assign between unions of different
+    #      lg_k in every accumulator state, then get_result and further updates on both; allocator scenario
+    for pos in range(3):
+        for rv in (11, 13):
+            b = Builder(rng)
+            a = build_input(rng, b, 6, rng.choice([1, 2, 3, 4]))[0]; c = build_input(rng, b, 7, rng.choice([1, 2, 4]))[0]
+            e_small = b.new_sketch(4)[0]; e_large = b.new_sketch(9)[0]
+            seq = [a, c]; seq.insert(pos, e_small); seq.insert(rng.randrange(len(seq) + 1), e_large)
+            u = b.reg(); b.ops.append([10, u, 8, 9001])
+            for x in seq:
+                b.ops.append([rv, u, x]); rr = b.reg(); b.ops.append([12, u, rr]); b.ops.append([4, rr])
+            res = b.reg(); b.ops.append([12, u, res]); b.ops.append([5, res])
+            u2 = b.reg(); b.ops.append([10, u2, 8, 9001])
+            for x in [a, c]: b.ops.append([11, u2, x])
+            res2 = b.reg(); b.ops.append([12, u2, res2]); b.ops.append([5, res2])
+            b.perm_groups.append([len(b.ops) - 1, [i for i, o in enumerate(b.ops) if o == [5, res]][0]])   # empty inputs change nothing
+            b.tags.add('union'); b.tags.add('union-empty-input')
+            add('union-empty', b)
+    for state in ('empty', 'sparse', 'matrix', 'reduced-sparse', 'reduced-matrix'):
+        for opc in (14, 15, 16, 17):
+            b = Builder(rng)
+            u1 = b.reg(); b.ops.append([10, u1, 7, 9001])
+            feed = {'empty': [], 'sparse': [(7, 1)], 'matrix': [(7, 3)], 'reduced-sparse': [(7, 1), (5, 1)], 'reduced-matrix': [(7, 4), (5, 2)]}[state]
+            for lg, flv in feed: b.ops.append([11, u1, build_input(rng, b, lg, flv)[0]])
+            u2 = b.reg()
+            if opc in (15, 17):
+                b.ops.append([10, u2, rng.choice([4, 6, 9]), 9001])
+                if rng.random() < 0.6: b.ops.append([11, u2, build_input(rng, b, rng.choice([4, 6]), rng.choice([1, 3]))[0]])
+            b.ops.append([opc, u1, u2])
+            extra = build_input(rng, b, rng.choice([5, 6, 8]), rng.choice([1, 2, 4]))[0]
+            for u in ([u1, u2] if opc in (14, 15) else [u2]):
+                rr = b.reg(); b.ops.append([12, u, rr]); b.ops.append([5, rr])
+                b.ops.append([11, u, extra]); rr = b.reg(); b.ops.append([12, u, rr]); b.ops.append([5, rr])
+            if opc in (16, 17): b.ops.append([12, u1, b.reg()])          # the moved-from register is gone: refused by both
+            b.tags.add('union'); b.tags.add('union-copy-%s' % state)
+            add('union-copy', b)
+    b = Builder(rng)
+    b.ops += [[50, 8, 8, 5, 5, 6, 7, 3, 4, 200, 6, 30], [50, 10, 10, 40, 6, 3, 10, 900, 4, 1], [50, 5, 7, 400, 6, 2, 4, 0, 5, 50], [50, 6]]
+    b.tags.add('allocator'); add('alloc', b)
     # (d) row_col_from_two_hashes
     b = Builder(rng)
     for _ in range(60):
@@ -476,6 +516,9 @@ def oracle(case, irecs, mrecs):
             if key in icon and icon[key] != F:
                 fails.append(dict(sig='icon_function', what='merged estimate differs for equal (lg_k, C) = %r' % (key,), op_index=i))
             icon.setdefault(key, F)
+        if op[0] == 50 and R != [1, 1, 1]:
+            fails.append(dict(sig='allocator_instance', what='union/sketch with a stateful allocator: result or copies report the user allocator=%d, nothing allocated '
+                              'through a default-constructed allocator=%d, arena balanced=%d (foreign allocations %s)' % (R[0], R[1], R[2], (F or ['?'])[0]), op_index=i))
         if op[0] == 12 and S and len(R) > 1:
             if R[1] != S[0]:
                 fails.append(dict(sig='union_lgk', what='union result lg_k %d != min over union and non-empty inputs %d' % (R[1], S[0]), op_index=i))
